@@ -427,7 +427,7 @@ Next ==
 
 Spec == Init /\ [][Next]_vars
 \* the executor polls what was woken, the kernel completes what it can; the environment owes nothing
-FairSpec == Spec /\ WF_vars(KernelStep) /\ \A b \in 1..2 : WF_vars(Poll(b))
+FairSpec == Spec /\ WF_vars(Build) /\ WF_vars(KernelStep) /\ \A b \in 1..2 : WF_vars(Poll(b))
 
 \* ---------------------------------------------------------------------------------------------------
 \* properties
@@ -461,8 +461,11 @@ BadPersOnlyVisible ==
 FailFastPrompt == (last.a = "poll" /\ last.ffexp) => (last.r \in {"ffroot", "ffbr", "ffitem"} /\ ~last.lp)
 \* the same including tokens cancelled before fail_fast() was called (holds only with FixListen)
 ListenCoversPast == phase # "pre" => \A p \in FPos : tokC[WId(W(p))] => lst[p] \in {"notified", "gone"}
-\* a stream that has returned None keeps returning None
-Fused == (last.a = "poll" /\ last.wasEnded) => last.r = "end"
+\* a stream that has returned None keeps returning None (SubmitMulti and SubmitMultiManaged are FusedStream, and
+\* with_cancel / with_personality are transparent; a fail-fast level is not fused: polling it after None is the
+\* caller's fault, it may still answer Err(Cancelled))
+NoFFOnPath(b) == \A k \in 1..PLen(b) : Pos(b, k) \notin FPos
+Fused == (last.a = "poll" /\ last.wasEnded /\ NoFFOnPath(last.b)) => last.r = "end"
 \* try_take gives the operation back exactly when the stream was never polled or has finished
 TryTake == last.a = "take" => (last.r = "ok" <=> last.pre \in {"Idle", "Finished"})
 \* dropping a submitted future or stream requests the cancellation of its operation
@@ -529,4 +532,8 @@ ShapesJoinAll == {Two(o, c1, l1, c2, l2) : o \in Chains0 \cup {<<"C1">>, <<"F1">
                                            c1 \in Chains0 \cup Chains1, c2 \in Chains0 \cup Chains1,
                                            l1 \in {"sb", "sx"}, l2 \in {"sx", "pr", "am"}}
 ShapesQuick == ShapesVis2 \cup ShapesSM \cup ShapesJoin
+\* small sets for the control configurations and the liveness runs
+ShapesCtl == {One(<<"F1">>, "pr"), One(<<"F1">>, "am"), One(<<"C1", "P1">>, "sx"), One(<<>>, "sb"),
+              One(<<"F1">>, "sb")}
+ShapesLive == ShapesSM \cup ShapesJoin \cup {One(<<"F1">>, "pr"), One(<<"C2", "F1">>, "pr")}
 =============================================================================
